@@ -321,5 +321,12 @@ Fixpoint toy_disagreeing (cf : bcfg) (i : nat) (cs : list toy_case) : list nat :
   match cs with [] => [] | c :: t => ((if toy_agrees cf c then [] else [i]) ++ toy_disagreeing cf (S i) t)%list end.
 Definition toy_of (c : tcase) (x : option (list Z)) : toy_case :=
   let '(ins, tr, outs, g, _) := c in (ins, tr, outs, g, x).
+
+
+(* hypotheses of the full (two-directional) control-flow theorem: additionally "?undefined", the name a value id
+   that does not exist is printed with, is not a defined name *)
+Definition cf_hyps_eqb (cf : bcfg) (ins : list string) (tr : list call) : bool :=
+  cf_hypsb cf ins tr && negb (mem_str "?undefined" (all_defined (fst (build_state cf ins tr)))).
+
 Definition tcase_hyps (cf : bcfg) (c : tcase) : bool :=
-  let '(ins, tr, _, _, _) := c in cf_hypsb cf ins tr.
+  let '(ins, tr, _, _, _) := c in cf_hyps_eqb cf ins tr.
